@@ -55,6 +55,32 @@ def make_eval_trace(job):
     return {"hdr": hdr, "ev": evs}
 
 
+def make_inh_trace(job):
+    """Worker: inheritance world (C03, C10, C11, C12, C13)."""
+    from .gen_inh import GenInh
+    from .world import World
+    seed, profile, nops, opts = job
+    g = GenInh(seed, profile, **opts.get("gen", {}))
+    defs = g.program()
+    w = World(defs, track_handles=True)
+    try:
+        hdr = {"init": defs, "pdefs": w.project_defs(), "seed": seed, "profile": profile,
+               "recalc": False, "checkdefs": True, "world": "inh"}
+        evs = []
+        for _ in range(nops):
+            op = g.next_op()
+            ev = w.apply(op, deep=True)
+            g.update(op, ev["res"], ev)
+            evs.append(ev)
+        for p, c in g.all_cells():
+            for args in _all_args(g, c)[:2]:
+                evs.append(w.apply({"op": "call", "c": [list(p), [], c], "args": args,
+                                    "sp": "pos"}, deep=False))
+    finally:
+        w.close()
+    return {"hdr": hdr, "ev": evs}
+
+
 def _all_args(g, c):
     ps = g.sigs[c]
     if not ps:
@@ -68,9 +94,12 @@ def replay_ops_trace(job):
     """Worker: replay a given (defs, ops) history (spec -> code direction)."""
     from .world import World
     defs, ops, opts = job
-    w = World(defs, maxdepth=opts.get("maxdepth"), recalc=opts.get("recalc", False))
+    w = World(defs, maxdepth=opts.get("maxdepth"), recalc=opts.get("recalc", False),
+              track_handles=bool(opts.get("handles")))
     try:
         hdr = {"init": defs, "pdefs": w.project_defs(), "recalc": bool(opts.get("recalc", False))}
+        if opts.get("checkdefs"):
+            hdr["checkdefs"] = True
         if opts.get("maxdepth"):
             hdr["maxdepth"] = opts["maxdepth"]
         evs = [w.apply(op, deep=opts.get("deep", True)) for op in ops]
